@@ -358,7 +358,8 @@ def r131(ctx, rep, f, ev, cg, reach, O):
                 arg = show_origin(b.origin(direct[0][1]["args"][1]))
                 src = show_origin(b.origin(nxt[0][1]["args"][0]))
                 ok = "next(" in arg and arg.rstrip(")").endswith("@Some.0*") or ("next(" in arg and "@Some.0" in arg and arg.endswith("*"))
-                ok = ok and "<impl [T]>::iter(&LaneDataFrame::data(arg2)" in src
+                # the slice itself (`for &b in frame.data()`) or its iter() — both visit every byte in order
+                ok = ok and ("<impl [T]>::iter(&LaneDataFrame::data(arg2)" in src or re.search(r"IntoIterator for &'a \[T\]>::into_iter\(&?LaneDataFrame::data\(arg2\)\)", src) is not None)
                 # decode on every iteration that yielded a byte
                 ok = ok and b.all_paths_pass(direct[0][0], [nxt[0][0]], to=b.return_blocks()) and not [x for x in b.succ[nxt[0][0]] if False]
                 some_t = None
@@ -776,12 +777,10 @@ def r132(ctx, rep, f, ev, cg, reach, O):
         ok = ok and kv == "sym(cd.bunch_counter)"
         rep.check(ok, "R13.2", "R13.2|bc|per-lane", "lane error iff more than one distinct chip bunch counter (unique_by bunch_counter)", WL,
                   "check_bunch_counters: verdict per number of distinct values %s over %s keyed by %s" % (verdicts, [l_[:160] for l_ in lists], kv))
-    dl = LA + "do_lane_alpide_checks"
-    tb = ev.tb(dl)
-    if tb is not None:
-        il = [(x, n) for x, n in tb.walk() if n["k"] == "If" and tb.e(n["cond"])[1]["k"] == "Let" and _calls(tb, tb.e(n["cond"])[1]["e"], "check_bunch_counters")]
-        ok = len(il) == 1 and codes_under(ctx.facts(), tb, il[0][1]["then"]) == {O["codes"]["chip_bc"]} and tb.e(il[0][1]["cond"])[1]["pat"].get("vname") == "Err"
-        rep.check(ok, "R13.2", "R13.2|bc|code", "Err(check_bunch_counters) → [E9003]", WL)
+    tab = lane_check_codes(ev, f)
+    bad = {k_: v_ for k_, v_ in tab.items() if (O["codes"]["chip_bc"] in v_) != (not k_[0]) or isinstance(v_, str)}
+    rep.check(bool(tab) and not bad, "R13.2", "R13.2|bc|code", "Err(check_bunch_counters) → [E9003] (decided for the 8 outcome combinations of the three lane checks)", WL,
+              "codes recorded per (bunch counters ok, chip count ok, chip order ok): %s" % bad)
     # IB chip rules
     ifs_ = [o for o in ev.collect_ifs(LA + "check_chip_count", [Sym("self")]) if "cond" in o]
     inner = "and[symc(isInner(sym(payload(sym(self.from_layer),Some))));symc(isSome(sym(self.from_layer)))]"
@@ -882,6 +881,36 @@ def lane_case_events(ev, f):
         out[case] = evs
     return out
 
+
+
+def lane_check_codes(ev, f):
+    """{(bunch counters ok, chip count ok, chip order ok): sorted codes appended to the lane's error text} —
+    do_lane_alpide_checks evaluated with the three checks replaced by each combination of outcomes (helpers followed)"""
+    dl = LA + "do_lane_alpide_checks"
+    if dl not in f.fns:
+        return {}
+    out = {}
+    for bc in (True, False):
+        for cnt in (True, False):
+            for order in (True, False):
+                res = lambda ok_, nm: Agg("core::result::Result", "Ok", {"0": ()}) if ok_ else Agg("core::result::Result", "Err", {"0": Sym(nm)})
+                ev.call_hooks = [(lambda fn_, r_: (r_ or fn_).endswith("::check_bunch_counters"), lambda n, a, bc=bc: res(bc, "BCMSG")),
+                                 (lambda fn_, r_: (r_ or fn_).endswith("::check_chip_count"), lambda n, a, cnt=cnt: res(cnt, "CNTMSG")),
+                                 (lambda fn_, r_: (r_ or fn_).endswith("::check_chip_id_order"), lambda n, a, order=order: res(order, "ORDMSG"))]
+                ev.watch = lambda c: c.endswith("::push_str") or c.endswith("::write_fmt") or c.endswith("::push")
+                try:
+                    recs = ev.collect_ifs(dl, [Sym("self")], follow=lambda c: c.startswith(LA) and not c.endswith(("::check_bunch_counters", "::check_chip_count", "::check_chip_id_order")))
+                    live = [o for o in recs if "call" in o and not o.get("closure") and not any(g in ("false", "not true") for g in o["guard"])]
+                    if any(g not in ("true", "not false") for o in live for g in o["guard"]):
+                        out[(bc, cnt, order)] = "undecided"
+                    else:
+                        out[(bc, cnt, order)] = sorted(c_ for o in live for c_ in re.findall(r"\[(E\d{4})\]", " ".join(o["args"])))
+                except Unsupported as e:
+                    out[(bc, cnt, order)] = "unevaluable: %s" % e
+                finally:
+                    ev.call_hooks = []
+                    ev.watch = None
+    return out
 
 
 def _bind_params(ev, tb, args):
